@@ -1,66 +1,83 @@
+mod catalog;
 mod explore;
 mod oracles;
 mod ops;
 mod payload;
 mod rt;
 mod scenario;
+mod selftest;
+mod seqmc;
 mod valloc;
 
 #[global_allocator]
 static GLOBAL: valloc::VAlloc = valloc::VAlloc;
 
-use ops::*;
-use scenario::*;
+use catalog::Tier;
 use std::time::{Duration, Instant};
 
-fn dev() {
-    let cfg = QCfg {
-        fl: Flavour::M,
-        fut: false,
-        cap: 2,
-        wait: WaitK::Busy,
-        spins: None,
-    };
-    let mut s = Scn::new("dev-1p3-1c3", cfg);
-    s.threads = vec![
-        vec![
-            opv(OpK::TrySend, 0, 1),
-            opv(OpK::TrySend, 0, 2),
-            opv(OpK::TrySend, 0, 3),
-            op(OpK::DropH, 0),
-        ],
-        vec![
-            op(OpK::TryRecv, 1),
-            op(OpK::TryRecv, 1),
-            op(OpK::TryRecv, 1),
-            op(OpK::DropH, 1),
-        ],
-    ];
-    s.post = Post::Drain;
-    for c in 0..4 {
-        let st = explore::explore(
-            &s,
-            c,
-            (0, 1),
-            u64::MAX,
-            Instant::now() + Duration::from_secs(600),
-        );
-        println!(
-            "c={} execs={} complete={} hangs={} outcomes={} nontrivial={} max_points={} max_steps={} ms={} errs={:?}",
-            c,
-            st.execs,
-            st.complete,
-            st.hangs,
-            st.outcomes.len(),
-            st.nontrivial_outcomes.len(),
-            st.max_points,
-            st.max_steps,
-            st.wall_ms,
-            st.machinery_errors
-        );
-        for (sig, fr) in &st.findings {
-            println!("  FINDING {} x{} :: {}", sig, fr.count, fr.finding.detail);
+fn tier_of(s: &str) -> Tier {
+    match s {
+        "quick" => Tier::Quick,
+        "thorough" => Tier::Thorough,
+        _ => {
+            eprintln!("tier must be quick|thorough");
+            std::process::exit(2)
         }
+    }
+}
+
+fn clean(s: &str) -> String {
+    s.replace(['\t', '\n', '\r'], " ")
+}
+
+fn csv(v: &[u8]) -> String {
+    v.iter().map(|x| x.to_string()).collect::<Vec<_>>().join(",")
+}
+
+fn parse_csv(s: &str) -> Vec<u8> {
+    if s.is_empty() || s == "-" {
+        return vec![];
+    }
+    s.split(',').map(|x| x.parse().unwrap()).collect()
+}
+
+pub fn print_stats(st: &explore::Stats) {
+    println!("STAT\tscenario\t{}", st.scenario);
+    println!("STAT\tthreads\t{}", st.threads);
+    println!("STAT\tbound\t{}", if st.bound == explore::UNBOUNDED { -1 } else { st.bound as i64 });
+    println!("STAT\texecs\t{}", st.execs);
+    println!("STAT\tcomplete\t{}", st.complete);
+    println!("STAT\thangs\t{}", st.hangs);
+    println!("STAT\thorizons\t{}", st.horizons);
+    println!("STAT\tfaults\t{}", st.faults);
+    println!("STAT\tmax_points\t{}", st.max_points);
+    println!("STAT\tmax_steps\t{}", st.max_steps);
+    println!("STAT\tsum_steps\t{}", st.sum_steps);
+    println!("STAT\tcapped\t{}", st.capped as u8);
+    println!("STAT\twall_ms\t{}", st.wall_ms);
+    for o in &st.outcomes {
+        println!(
+            "OUTCOME\t{:x}\t{}",
+            o,
+            st.nontrivial_outcomes.contains(o) as u8
+        );
+    }
+    for (sig, fr) in &st.findings {
+        println!(
+            "FINDING\t{}\t{}\t{}\t{}\t{}\t{}",
+            fr.finding.prop,
+            clean(sig),
+            fr.count,
+            if fr.prefix.is_empty() { "-".to_string() } else { csv(&fr.prefix) },
+            if fr.expect_n.is_empty() { "-".to_string() } else { csv(&fr.expect_n) },
+            clean(&fr.finding.detail)
+        );
+    }
+    for e in &st.machinery_errors {
+        println!("ERR\t{}", clean(e));
+    }
+    for s in &st.sample {
+        println!("SAMPLE\t{}", clean(s));
     }
 }
 
@@ -68,8 +85,105 @@ fn main() {
     rt::install_panic_hook();
     rt::seq_enter();
     let args: Vec<String> = std::env::args().collect();
-    match args.get(1).map(|s| s.as_str()) {
-        Some("dev") => dev(),
-        _ => eprintln!("usage: mqv dev"),
+    let a = |i: usize| args.get(i).map(|s| s.as_str()).unwrap_or("");
+    match a(1) {
+        "list" => {
+            // list <prop> <tier>
+            let ts = catalog::tasks(a(2), tier_of(a(3)));
+            for t in &ts {
+                if let Err(e) = catalog::validate(&t.scn) {
+                    eprintln!("MACHINERY ERROR: bad scenario: {}", e);
+                    std::process::exit(2);
+                }
+            }
+            for (i, t) in ts.iter().enumerate() {
+                println!(
+                    "TASK\t{}\t{}\t{}\t{}\t{}",
+                    i,
+                    t.scn.name,
+                    if t.c == explore::UNBOUNDED { -1 } else { t.c as i64 },
+                    t.shards,
+                    t.scn.threads.len()
+                );
+            }
+        }
+        "worker" => {
+            // worker <prop> <tier> <idx> <shard_i> <shard_k> <deadline_s>
+            let ts = catalog::tasks(a(2), tier_of(a(3)));
+            let idx: usize = a(4).parse().unwrap();
+            let si: usize = a(5).parse().unwrap();
+            let sk: usize = a(6).parse().unwrap();
+            let dl: u64 = a(7).parse().unwrap_or(3600);
+            let t = &ts[idx];
+            let st = explore::explore(
+                &t.scn,
+                t.c,
+                (si, sk),
+                t.cap,
+                Instant::now() + Duration::from_secs(dl),
+            );
+            print_stats(&st);
+        }
+        "replay" => {
+            // replay <prop> <tier> <idx> <prefix csv> <ns csv>
+            let ts = catalog::tasks(a(2), tier_of(a(3)));
+            let idx: usize = a(4).parse().unwrap();
+            let t = &ts[idx];
+            let prefix = parse_csv(a(5));
+            let ns = parse_csv(a(6));
+            let o = explore::opts_for(&t.scn, &prefix, &ns, true, true);
+            let r1 = scenario::run_one(&t.scn, &o);
+            let r2 = scenario::run_one(&t.scn, &o);
+            println!("scenario: {}", t.scn.name);
+            println!("prefix ops: {:?}", t.scn.prefix);
+            for (i, th) in t.scn.threads.iter().enumerate() {
+                println!("thread {}: {:?}", i, th);
+            }
+            println!(
+                "replayed twice: trace hashes {:x} / {:x} ({})",
+                r1.rec.trace_hash,
+                r2.rec.trace_hash,
+                if r1.rec.trace_hash == r2.rec.trace_hash {
+                    "identical"
+                } else {
+                    "DIFFERENT - nondeterminism"
+                }
+            );
+            println!("--- schedule trace ({} steps, status {:?})", r1.rec.steps, r1.rec.status);
+            for l in &r1.rec.trace {
+                println!("  {}", l);
+            }
+            println!("--- history");
+            for l in oracles::dump_history(&r1) {
+                println!("  {}", l);
+            }
+            println!("--- findings");
+            let fs = oracles::judge(&t.scn, &r1);
+            for f in &fs {
+                println!("  {} {} :: {}", f.prop, f.sig, f.detail);
+            }
+            if r1.rec.trace_hash != r2.rec.trace_hash {
+                std::process::exit(2);
+            }
+            if let rt::Status::Diverged(_) = r1.rec.status {
+                std::process::exit(2);
+            }
+        }
+        "selftest" => {
+            if !selftest::run() {
+                std::process::exit(1);
+            }
+        }
+        "seq" => {
+            // seq <prop> <tier> <shard_i> <shard_k>
+            seqmc::main(a(2), tier_of(a(3)), a(4).parse().unwrap_or(0), a(5).parse().unwrap_or(1));
+        }
+        "seq-replay" => {
+            seqmc::replay(a(2));
+        }
+        _ => {
+            eprintln!("usage: mqv list|worker|replay|selftest|seq ...");
+            std::process::exit(2);
+        }
     }
 }
